@@ -26,8 +26,68 @@ GO = 'gym_gridverse/grid_object.py'
 CELL = cell(FRONT)
 
 
+def _status_table_to_stores(index, f):
+    """`door.state = TABLE[door.state, flag]` with TABLE a module-level dict literal over
+    every (Door.Status member, bool) pair is the chain of guarded stores it abbreviates: one
+    `if door.state is K and <flag / not flag>: door.state = V` per entry that changes the
+    status (entries that map a status to itself store what is already there).  Returns a Func
+    on the rewritten copy, or f when there is nothing of that shape."""
+    import copy
+    from ..index import Func
+    members = list(index.enum('Door.Status').members)
+    changed = [False]
+
+    class T(ast.NodeTransformer):
+        def visit_Assign(self, n: ast.Assign):
+            if not (len(n.targets) == 1 and isinstance(n.targets[0], ast.Attribute) and
+                    n.targets[0].attr == 'state' and isinstance(n.value, ast.Subscript) and
+                    isinstance(n.value.value, ast.Name) and
+                    isinstance(n.value.slice, ast.Tuple) and len(n.value.slice.elts) == 2):
+                return n
+            tb = f.module.assigns.get(n.value.value.id, [])
+            if len(tb) != 1 or not isinstance(tb[0], ast.Dict):
+                return n
+            a, b = n.value.slice.elts
+            if src(a) != src(n.targets[0]):
+                return n
+            rows = {}
+            for k, v in zip(tb[0].keys, tb[0].values):
+                if not (isinstance(k, ast.Tuple) and len(k.elts) == 2 and
+                        isinstance(k.elts[1], ast.Constant) and
+                        isinstance(k.elts[1].value, bool)):
+                    return n
+                em = index.enum_member(k.elts[0])
+                if not em or em[0] != 'Door.Status':
+                    return n
+                rows[(em[1], k.elts[1].value)] = (k.elts[0], v)
+            if set(rows) != {(m_, fl) for m_ in members for fl in (True, False)}:
+                raise AnalysisError(f'{n.value.value.id}: the status table does not cover every '
+                                    f'(status, flag) pair (a missing pair is a KeyError)')
+            out = []
+            for (m_, fl), (k0, v) in sorted(rows.items()):
+                if src(v) == src(k0):
+                    continue
+                cond = ast.BoolOp(ast.And(), [
+                    ast.Compare(copy.deepcopy(a), [ast.Is()], [copy.deepcopy(k0)]),
+                    copy.deepcopy(b) if fl else ast.UnaryOp(ast.Not(), copy.deepcopy(b))])
+                out.append(ast.If(cond, [ast.Assign([copy.deepcopy(n.targets[0])],
+                                                    copy.deepcopy(v))], []))
+            changed[0] = True
+            # the reads happen before any store: the chain is exclusive (each row tests the
+            # status it starts from), so at most one store fires; make that explicit
+            chain = None
+            for st in reversed(out):
+                st.orelse = [chain] if chain is not None else []
+                chain = st
+            return [ast.copy_location(chain, n)] if chain is not None else []
+    node = T().visit(copy.deepcopy(f.node))
+    if not changed[0]:
+        return f
+    return Func(f.name, f.module, ast.fix_missing_locations(node), f.cls)
+
+
 def door_guard_rule(index, rep, rule: str, ev=None) -> None:
-    f = index.func(TRANS, 'actuate_door')
+    f = _status_table_to_stores(index, index.func(TRANS, 'actuate_door'))
     m = FnModel(index, f, ['S', 'A'], ev)
     ev = m.ev
     st = [e for e in m.effects if effect_class(e) == 'door-status']
